@@ -4,4 +4,5 @@ Extraction Language OCaml.
 Extraction "model.ml"
   xb_zadd xb_zmul xb_zdiv xb_zmod xb_zopp xb_zltb xb_nadd xb_nmul xb_ndiv xb_nmod xb_z_of_n xb_n_of_z xb_n_of_nat xb_nat_of_n xb_keep
   validate generate new_config nonce_pattern_applies udp_packet_patterned nonce_rewrite_bounds nonce_rewrite_len
-  nonce_prefix_class fixed_prefix_len max_padding_size max_padding_tp extract_le le_send_decision server_send.
+  nonce_prefix_class fixed_prefix_len max_padding_size max_padding_tp extract_le le_send_decision server_send
+  fragments_enabled frag_min_len frag_max_len fragment_plan tcp_writes frag_sleep.
